@@ -63,7 +63,7 @@ class RepoLock:
     (shared lock); a run against a different checkout (SCRAPLI_REPO) waits until the others are done (exclusive to
     switch).  Held for the whole check run."""
 
-    GROUPS = {"C01": "chan", "C02": "chan", "C12": "chan", "C03": "priv", "C04": "priv", "C11": "telnet", "C15": "telnet"}
+    GROUPS = {"C01": "chan", "C02": "chan", "C12": "chan", "C09": "chan", "C03": "priv", "C04": "priv", "C11": "telnet", "C15": "telnet"}   # C09 imports ScrapliProps.C02 (round 2)
 
     def __init__(self, pid="all"):
         # properties that share generated modules share a lock; the others do not wait for each other
